@@ -27,6 +27,38 @@ class MachineryFault(Exception):
     """The check itself is broken (exit 2, no VIOLATION line)."""
 
 
+class HarnessCrash(Exception):
+    """The harness process (which runs the real code in-process) died while running requests."""
+    def __init__(self, req_lines, rc, stderr):
+        super().__init__(f"harness died with status {rc}")
+        self.req_lines, self.rc, self.stderr = req_lines, rc, stderr
+
+
+def isolate_crash(harness_bin, req_lines, env):
+    """Bisect a crashing request stream down to one case (case = `case` header + its lines)."""
+    cases = split_cases(req_lines)
+    e = dict(os.environ)
+    if env:
+        e.update(env)
+
+    def crashes(cs):
+        inp = "\n".join(l for c in cs for l in c) + "\n"
+        p = subprocess.run([harness_bin, "run"], input=inp, stdout=subprocess.PIPE, stderr=subprocess.PIPE,
+                           env=e, text=True, errors="replace", timeout=3600)
+        return p.returncode != 0
+    lo = cases
+    while len(lo) > 1:
+        half = len(lo) // 2
+        a, b = lo[:half], lo[half:]
+        if crashes(a):
+            lo = a
+        elif crashes(b):
+            lo = b
+        else:
+            break       # needs the combination: keep the current window
+    return [l for c in lo for l in c]
+
+
 class BuildLock:
     def __enter__(self):
         os.makedirs(WORK, exist_ok=True)
@@ -267,6 +299,9 @@ def run_pipeline(harness_bin, driver_bin, req_lines, env=None, timeout=3600):
     p1 = subprocess.run([harness_bin, "run"], input=inp, stdout=subprocess.PIPE, stderr=subprocess.PIPE,
                         env=e, text=True, errors="replace", timeout=timeout)
     if p1.returncode != 0:
+        if p1.returncode < 0 or p1.returncode in (101, 134, 139):
+            # the real code died (signal / abort / uncaught panic) while running these requests
+            raise HarnessCrash(req_lines, p1.returncode, p1.stderr[-1500:])
         raise MachineryFault(f"harness run exited {p1.returncode}: {p1.stderr[-2000:]}")
     p2 = subprocess.run([driver_bin], input=p1.stdout, stdout=subprocess.PIPE, stderr=subprocess.PIPE,
                         text=True, errors="replace", timeout=timeout)
@@ -321,13 +356,22 @@ def correspond(ctx, harness_bin, driver_bin, n, env=None, classify=None, nontriv
     jobs = []
     corp = corpus_lines(ctx)
 
+    crashes = []
+
     def job(k):
         reqs = gen_requests(harness_bin, ctx.seed, per, k * per, env)
-        return run_pipeline(harness_bin, driver_bin, reqs, env)
+        try:
+            return run_pipeline(harness_bin, driver_bin, reqs, env)
+        except HarnessCrash as hc:
+            crashes.append(hc)
+            return []
 
     results = []
     if corp:
-        results += run_pipeline(harness_bin, driver_bin, corp, env)
+        try:
+            results += run_pipeline(harness_bin, driver_bin, corp, env)
+        except HarnessCrash as hc:
+            crashes.append(hc)
     ncorp = len(results)
     with ThreadPoolExecutor(max_workers=shards) as ex:
         for r in ex.map(job, range(shards)):
@@ -335,6 +379,11 @@ def correspond(ctx, harness_bin, driver_bin, n, env=None, classify=None, nontriv
     problems = []
     dist = {}
     nontriv = set()
+    for hc in crashes[:2]:
+        culprit = isolate_crash(harness_bin, hc.req_lines, env)
+        ctx.violation({"kind": "implementation-crash",
+                       "what": f"the real code, run in-process by the harness, killed the process (status {hc.rc}: signal/abort/uncaught panic) on this request",
+                       "request": "\n".join(culprit)[:200000], "stderr": hc.stderr})
     for (req, impl, model, verdict) in results:
         op = req.split("\t", 1)[0]
         dist[op] = dist.get(op, 0) + 1
